@@ -4,6 +4,7 @@ import (
 	"context"
 	"encoding/json"
 	"fmt"
+	"regexp"
 	"sort"
 	"strings"
 	"testing"
@@ -125,7 +126,28 @@ type TopoPipe struct {
 	Exp    []string
 }
 
-func (p TopoPipe) id() string { return p.Signal + "/" + p.Name }
+// id is the pipeline ID in its "signal[/name]" form; Name == "" is the unnamed
+// pipeline of the signal.
+func (p TopoPipe) id() string { return pidString(p.Signal, p.Name) }
+
+func pidString(signal, name string) string {
+	if name == "" {
+		return signal
+	}
+	return signal + "/" + name
+}
+
+// legalPipeName: what pipeline.ID.UnmarshalText accepts as a name (1..1024
+// characters, no whitespace / control characters / symbols), minus the
+// characters this harness uses as separators in its own keys (",", "|", ":").
+var legalPipeName = regexp.MustCompile(`^[^\pZ\pC\pS]+$`)
+
+func validPipeName(n string) bool {
+	if n == "" {
+		return true // unnamed pipeline
+	}
+	return len(n) <= 64 && legalPipeName.MatchString(n) && !strings.ContainsAny(n, ",|:") && !strings.HasPrefix(n, "/") && !strings.HasSuffix(n, "/")
+}
 
 // TopoScript: objects (one per graph node) are named
 // "r:<id>:<signal>", "e:<id>:<signal>", "p:<pipeline>", "c:<id>:<expSignal>><rcvSignal>".
@@ -149,19 +171,18 @@ func (s TopoScript) valid() bool {
 		if p.Signal != "traces" && p.Signal != "metrics" && p.Signal != "logs" {
 			return false
 		}
-		if p.Name == "" || strings.ContainsAny(p.Name, "/ ,|") || seen[p.id()] || len(p.Recv) == 0 || len(p.Exp) == 0 {
+		if !validPipeName(p.Name) || seen[p.id()] || len(p.Recv) == 0 || len(p.Exp) == 0 {
 			return false
 		}
 		seen[p.id()] = true
+		connRecv, connExp := false, false
 		for _, r := range p.Recv {
 			if r != "ra" && r != "rb" && r != "ca" && r != "cb" {
 				return false
 			}
 			if isConn(r) {
 				asRecv[r] = true
-				if strings.HasPrefix(p.Name, "in") {
-					return false // tiers keep the graph acyclic
-				}
+				connRecv = true
 			}
 		}
 		for _, x := range p.Exp {
@@ -170,10 +191,11 @@ func (s TopoScript) valid() bool {
 			}
 			if isConn(x) {
 				asExp[x] = true
-				if !strings.HasPrefix(p.Name, "in") {
-					return false
-				}
+				connExp = true
 			}
+		}
+		if connRecv && connExp {
+			return false // two tiers keep the graph acyclic: no pipeline is fed by a connector AND feeds one
 		}
 		if dup(p.Recv) || dup(p.Exp) {
 			return false
@@ -335,7 +357,7 @@ func (e *topoEnv) build() (service.Settings, service.Config) {
 		}, stab))
 	procObj := func(id component.ID) string {
 		sg, name, _ := strings.Cut(id.Name(), "_")
-		return "p:" + sg + "/" + name
+		return "p:" + pidString(sg, name)
 	}
 	pf := processor.NewFactory(typP, defaultCfg,
 		processor.WithTraces(func(_ context.Context, set processor.Settings, _ component.Config, _ consumer.Traces) (processor.Traces, error) {
@@ -446,6 +468,82 @@ func (e *topoEnv) build() (service.Settings, service.Config) {
 
 var cTopo = vt.New("C11", "service-topology")
 
+func init() { cTopo.ReplayRepeat = 8 } // the order in which the graph visits the pipelines (a map) varies per start
+
+// pairRelation names how two distinct pipeline IDs ("signal[/name]") resemble
+// each other, "" when they do not.  These are the shapes in which an
+// implementation that handles the pipelines of an instance as text (one encoded
+// string, prefix tests, case folding ...) can take one pipeline for the other.
+func pairRelation(a, b string) string {
+	if len(a) > len(b) || (len(a) == len(b) && a > b) {
+		a, b = b, a
+	}
+	sa, na, namedA := strings.Cut(a, "/")
+	sb, nb, namedB := strings.Cut(b, "/")
+	switch {
+	case a == b:
+		return ""
+	case strings.EqualFold(a, b):
+		return "case-variant"
+	case !namedA && namedB && sa == sb:
+		return "unnamed+named"
+	case strings.HasPrefix(b, a):
+		return "id-prefix-of-id"
+	case !namedA && namedB && strings.HasSuffix(b, "/"+a):
+		return "unnamed-id-is-name-in-other-signal" // logs and traces/logs
+	case strings.HasSuffix(b, a):
+		return "id-suffix-of-id"
+	case strings.Contains(b, a):
+		return "id-infix-of-id"
+	case namedA && namedB && sa == sb && strings.EqualFold(na, nb):
+		return "case-variant"
+	case namedA && namedB && sa != sb && na == nb:
+		return "same-name-other-signal"
+	case namedA && namedB && sa == sb && (strings.HasSuffix(nb, na) || strings.HasSuffix(na, nb)):
+		return "name-suffix-of-name"
+	case namedA && namedB && sa == sb && (strings.Contains(nb, na) || strings.Contains(na, nb)):
+		return "name-infix-of-name"
+	}
+	return ""
+}
+
+// textual: relations in which one whole ID occurs inside the other or they
+// differ in case only (a start of such a service is repeated, see runTopo).
+func textual(rel string) bool {
+	switch rel {
+	case "case-variant", "unnamed+named", "id-prefix-of-id", "unnamed-id-is-name-in-other-signal", "id-suffix-of-id", "id-infix-of-id":
+		return true
+	}
+	return false
+}
+
+// nodeRelations: the relations between the pipelines that ONE graph node (one
+// status instance) stands for, derived from the configuration.
+func nodeRelations(objKey map[string]string) (rels map[string]bool, anyTextual bool) {
+	rels = map[string]bool{}
+	for o, k := range objKey {
+		parts := strings.SplitN(k, "|", 3)
+		if len(parts) != 3 || parts[2] == "" {
+			continue
+		}
+		ps := strings.Split(parts[2], ",")
+		for i := range ps {
+			for j := i + 1; j < len(ps); j++ {
+				if r := pairRelation(ps[i], ps[j]); r != "" {
+					rels[o[:1]+":"+r] = true
+					anyTextual = anyTextual || textual(r)
+				}
+			}
+		}
+	}
+	return rels, anyTextual
+}
+
+type topoRun struct {
+	sharedNodes, connMulti, nconn, nobjs int
+	contentSkipped                       int
+}
+
 func runTopo(s TopoScript) (nontrivial bool, key string, f *vt.Finding) {
 	kb, _ := json.Marshal(s)
 	key = string(kb)
@@ -453,16 +551,84 @@ func runTopo(s TopoScript) (nontrivial bool, key string, f *vt.Finding) {
 		return false, key, nil
 	}
 	c := cTopo
+	_, objKey := topoExpect(s)
+	rels, anyTextual := nodeRelations(objKey)
+	// The graph builds the InstanceIDs while ranging over the pipelines map, so the order in which
+	// the pipelines of a shared node are added differs from start to start.  The expectation does
+	// not depend on it; a configuration whose shared pipelines resemble each other is started
+	// several times so that both orders are seen with high probability.
+	reps := 1
+	if anyTextual {
+		reps = 5
+	}
+	var st topoRun
+	for i := 0; i < reps; i++ {
+		var fd *vt.Finding
+		st, fd = runTopoOnce(s)
+		if fd != nil {
+			return true, key, fd
+		}
+	}
+	named, unnamed, sigWord, slash := 0, 0, 0, 0
+	for _, p := range s.Pipes {
+		switch {
+		case p.Name == "":
+			unnamed++
+		default:
+			named++
+		}
+		if p.Name == "traces" || p.Name == "metrics" || p.Name == "logs" {
+			sigWord++
+		}
+		if strings.Contains(p.Name, "/") {
+			slash++
+		}
+	}
+	c.Class(fmt.Sprintf("pipelines/%d", len(s.Pipes)), "nodes/"+bucket(st.nobjs))
+	if unnamed > 0 {
+		c.Class("names/has-unnamed-pipeline")
+	}
+	if sigWord > 0 {
+		c.Class("names/name-is-a-signal-word")
+	}
+	if slash > 0 {
+		c.Class("names/name-contains-slash")
+	}
+	for r := range rels {
+		c.Class("one-node-stands-for-pair/" + r)
+	}
+	if anyTextual {
+		c.Class("started-5-times(textually-related-pipelines-on-one-node)")
+	} else if len(rels) == 0 {
+		c.Class("one-node-stands-for-pair/none-related")
+	}
+	if st.contentSkipped > 0 {
+		c.Class("content-skipped(instance-id-differs-from-derived)")
+	}
+	if st.sharedNodes > 0 {
+		c.Class("node-in->=2-pipelines")
+	}
+	c.Class(fmt.Sprintf("connector-nodes/%d", st.nconn))
+	if st.connMulti > 0 {
+		c.Class("connector-exporter-of->=2-pipelines-of-one-signal")
+	}
+	// non-trivial: some component is part of >= 2 pipelines through one instance
+	return st.sharedNodes > 0, key, nil
+}
+
+// runTopoOnce builds, starts, drives and stops one service for the script and
+// evaluates every oracle on what the watcher saw.
+func runTopoOnce(s TopoScript) (st topoRun, f *vt.Finding) {
 	e := &topoEnv{s: s, sink: &svcEnv{comps: map[string]*svcComp{}}, comps: map[string]*svcComp{}}
 	set, cfg := e.build()
 	ctx := context.Background()
 	srv, err := service.New(ctx, set, cfg)
 	if err != nil {
-		return false, key, vt.Failf("svc/harness", "service.New: %v", err)
+		return st, vt.Failf("svc/harness", "service.New: %v", err)
 	}
 	if serr := srv.Start(ctx); serr != nil {
 		_ = srv.Shutdown(ctx)
-		return false, key, vt.Failf("svc/harness", "service.Start: %v", serr)
+		return st, vt.Failf("svc/harness", "service.Start: %v", serr)
 	}
 	for _, op := range s.Runtime {
 		if comp := e.comps[op.Comp]; comp != nil && comp.host != nil {
@@ -487,17 +653,17 @@ func runTopo(s TopoScript) (nontrivial bool, key string, f *vt.Finding) {
 	for _, k := range keys {
 		if fd := pathCheck("svc", per[k]); fd != nil {
 			fd.Msg = "instance " + k + ": " + fd.Msg
-			return true, key, fd
+			return st, fd
 		}
 	}
 	// identity: derived from the configuration alone
 	pairs, objKey := topoExpect(s)
 	if fd := identityOracle("svc", pairs, keys, true); fd != nil {
-		return true, key, fd
+		return st, fd
 	}
 	// content: every graph node delivered the automaton's output for what was reported for it
 	objs := s.objects()
-	rejAfterAcc, sharedNodes, connMulti := false, 0, 0
+	st.nobjs = len(objs)
 	for _, o := range objs {
 		comp := e.comps[o]
 		if comp == nil || comp.startCalls != 1 || comp.shutdownCall != 1 || e.comps[o+"#dup"] != nil {
@@ -505,7 +671,7 @@ func runTopo(s TopoScript) (nontrivial bool, key string, f *vt.Finding) {
 			if comp != nil {
 				n = comp.startCalls
 			}
-			return true, key, vt.Failf("svc/topology/node-lifecycle", "configuration implies one component for node %s; created=%v (twice=%v) started %d times", o, comp != nil, e.comps[o+"#dup"] != nil, n)
+			return st, vt.Failf("svc/topology/node-lifecycle", "configuration implies one component for node %s; created=%v (twice=%v) started %d times", o, comp != nil, e.comps[o+"#dup"] != nil, n)
 		}
 		want := append([]int{lStarting}, comp.b.StartReports...)
 		want = append(want, lOKIfStarting)
@@ -521,19 +687,17 @@ func runTopo(s TopoScript) (nontrivial bool, key string, f *vt.Finding) {
 		// oracle above judged the ids); take the one derived from the configuration when present
 		got, okKey := per[objKey[o]]
 		if !okKey {
-			c.Class("content-skipped(instance-id-differs-from-derived)")
+			st.contentSkipped++
 			continue
 		}
 		if ok, exhausted := linearizable(lNone, [][]int{want}, got); !exhausted && !ok {
-			return true, key, vt.Failf("svc/not-the-automaton-run", "instance %s: watcher saw [%s]; reports made: [%s]", objKey[o], statusSeqString(got), lettersString(want))
-		}
-		if len(got) < len(want) {
-			rejAfterAcc = true
+			return st, vt.Failf("svc/not-the-automaton-run", "instance %s: watcher saw [%s]; reports made: [%s]", objKey[o], statusSeqString(got), lettersString(want))
 		}
 		if strings.Count(objKey[o], ",") >= 1 {
-			sharedNodes++
+			st.sharedNodes++
 		}
 		if strings.HasPrefix(o, "c:") {
+			st.nconn++
 			parts := strings.Split(o, ":")
 			es, _, _ := strings.Cut(parts[2], ">")
 			n := 0
@@ -547,28 +711,31 @@ func runTopo(s TopoScript) (nontrivial bool, key string, f *vt.Finding) {
 				}
 			}
 			if n >= 2 {
-				connMulti++
+				st.connMulti++
 			}
 		}
 	}
-	c.Class(fmt.Sprintf("pipelines/%d", len(s.Pipes)), "nodes/"+bucket(len(objs)))
-	if sharedNodes > 0 {
-		c.Class("node-in->=2-pipelines")
-	}
-	nconn := 0
-	for _, o := range objs {
-		if strings.HasPrefix(o, "c:") {
-			nconn++
-		}
-	}
-	c.Class(fmt.Sprintf("connector-nodes/%d", nconn))
-	if connMulti > 0 {
-		c.Class("connector-exporter-of->=2-pipelines-of-one-signal")
-	}
-	_ = rejAfterAcc
-	// non-trivial: some component is part of >= 2 pipelines through one instance
-	return sharedNodes > 0, key, nil
+	return st, nil
 }
+
+// nameFamily: pipeline names that resemble each other and the signal words,
+// built around one base token: the unnamed pipeline, the token, the token
+// extended at the end / at the front / on both sides, its proper prefix and
+// suffix, doubled, case variants, a name with a slash, and the signal words
+// themselves (logs/logs, traces/logs ...).  Every name is legal for
+// pipeline.ID.UnmarshalText.
+func nameFamily(base string) []string {
+	rs := []rune(base)
+	out := []string{"", "", base, base, base + "2", "2" + base, "x" + base + "y", base + base,
+		strings.ToUpper(base), strings.ToUpper(string(rs[:1])) + string(rs[1:]), base + "/" + base, base + "-" + base,
+		"logs", "traces", "metrics", "log", "Logs"}
+	if len(rs) > 1 {
+		out = append(out, string(rs[:len(rs)-1]), string(rs[1:]))
+	}
+	return out
+}
+
+var nameBases = []string{"eu", "eu", "audit", "a", "ab", "prod", "logs", "traces", "x1", "über"}
 
 func genTopo(t *rapid.T) TopoScript {
 	s := TopoScript{Comps: map[string]Behaviour{}}
@@ -577,14 +744,34 @@ func genTopo(t *rapid.T) TopoScript {
 	}
 	nIn := rapid.IntRange(1, 3).Draw(t, "nIn")
 	nOut := rapid.IntRange(0, 3).Draw(t, "nOut")
+	// names: 1 in 4 scripts keeps the plain tier names in1.. / out1.., the others draw every name from
+	// one family of names that resemble each other
+	var family []string
+	if rapid.IntRange(0, 3).Draw(t, "plainNames") != 0 {
+		family = nameFamily(rapid.SampledFrom(nameBases).Draw(t, "nameBase"))
+	}
+	used := map[string]bool{}
+	name := func(signal, plain string) string {
+		if family == nil {
+			return plain
+		}
+		i := rapid.IntRange(0, len(family)-1).Draw(t, "name")
+		for used[pidString(signal, family[i])] { // distinct pipeline IDs; the family is larger than any script
+			i = (i + 1) % len(family)
+		}
+		used[pidString(signal, family[i])] = true
+		return family[i]
+	}
 	for i := 0; i < nIn; i++ {
-		p := TopoPipe{Signal: sig("inSig"), Name: fmt.Sprintf("in%d", i+1)}
+		p := TopoPipe{Signal: sig("inSig")}
+		p.Name = name(p.Signal, fmt.Sprintf("in%d", i+1))
 		p.Recv = rapid.SampledFrom([][]string{{"ra"}, {"ra"}, {"rb"}, {"ra", "rb"}}).Draw(t, "inRecv")
 		p.Exp = rapid.SampledFrom([][]string{{}, {}, {"ea"}, {"eb"}}).Draw(t, "inExp")
 		s.Pipes = append(s.Pipes, p)
 	}
 	for i := 0; i < nOut; i++ {
-		p := TopoPipe{Signal: sig("outSig"), Name: fmt.Sprintf("out%d", i+1)}
+		p := TopoPipe{Signal: sig("outSig")}
+		p.Name = name(p.Signal, fmt.Sprintf("out%d", i+1))
 		p.Recv = rapid.SampledFrom([][]string{{}, {}, {"ra"}, {"rb"}}).Draw(t, "outRecv")
 		p.Exp = rapid.SampledFrom([][]string{{"ea"}, {"ea"}, {"eb"}, {"ea", "eb"}}).Draw(t, "outExp")
 		s.Pipes = append(s.Pipes, p)
